@@ -357,6 +357,10 @@ class Vector():
 		# Python Date interceptors
 		if target_type is date:
 			def caster(x):
+				# datetime is a subclass of date: reduce it to its date part,
+				# otherwise a datetime would sit in a column typed date
+				if isinstance(x, datetime):
+					return x.date()
 				if isinstance(x, date):
 					return x
 				return date.fromisoformat(x)
